@@ -282,10 +282,10 @@ impl FromStr for NarrowPeak {
             name: parse_name(&mut fields)?,
             score: parse_score(&mut fields)?,
             strand: parse_strand(&mut fields)?,
-            signal_value: fields.next().unwrap().parse().unwrap(),
-            p_value: parse_pvalue(&mut fields).unwrap(),
-            q_value: parse_pvalue(&mut fields).unwrap(),
-            peak: fields.next().unwrap().parse().unwrap(),
+            signal_value: parse_value(&mut fields)?,
+            p_value: parse_pvalue(&mut fields)?,
+            q_value: parse_pvalue(&mut fields)?,
+            peak: parse_value(&mut fields)?,
         })
     }
 }
@@ -372,9 +372,9 @@ impl FromStr for BroadPeak {
             name: parse_name(&mut fields)?,
             score: parse_score(&mut fields)?,
             strand: parse_strand(&mut fields)?,
-            signal_value: fields.next().unwrap().parse().unwrap(),
-            p_value: parse_pvalue(&mut fields).unwrap(),
-            q_value: parse_pvalue(&mut fields).unwrap(),
+            signal_value: parse_value(&mut fields)?,
+            p_value: parse_pvalue(&mut fields)?,
+            q_value: parse_pvalue(&mut fields)?,
         })
     }
 }
@@ -452,7 +452,7 @@ where
             chrom: parse_chrom(&mut fields)?.to_string(),
             start: parse_start(&mut fields)?,
             end: parse_end(&mut fields)?,
-            value: fields.next().unwrap().parse().unwrap(),
+            value: parse_value(&mut fields)?,
         })
     }
 }
@@ -533,9 +533,20 @@ where
         .next()
         .ok_or(ParseError::MissingScore)
         .and_then(|s| {
-            let p = s.parse().unwrap();
+            let p: f64 = s.parse().map_err(|_| ParseError::InvalidValue)?;
             if p < 0.0 { Ok(None) } else { Ok(Some(p)) }
         })
+}
+
+fn parse_value<'a, I, V>(fields: &mut I) -> Result<V, ParseError>
+where
+    I: Iterator<Item = &'a str>,
+    V: FromStr,
+{
+    fields
+        .next()
+        .ok_or(ParseError::MissingValue)
+        .and_then(|s| s.parse().map_err(|_| ParseError::InvalidValue))
 }
 
 /// An error returned when a raw BED record fails to parse.
@@ -561,6 +572,10 @@ pub enum ParseError {
     MissingStrand,
     /// The strand is invalid.
     InvalidStrand(strand::ParseError),
+    /// A format-specific value column is missing.
+    MissingValue,
+    /// A format-specific value column is invalid.
+    InvalidValue,
 }
 
 #[cfg(test)]
